@@ -138,6 +138,10 @@ def check(case):
         ('filename', lambda: penman.load(path, model=m, encoding='utf-8')),
         ('fileobj', via_fileobj),
         ('Path', lambda: penman.load(pathlib.Path(path), model=m, encoding='utf-8')),
+        # all trees first, interpretation afterwards (a tree must not depend on the iterator that produced it)
+        ('list(iterparse)+interpret', lambda: [layout.interpret(t, m) for t in list(penman.iterparse(text))]),
+        ('list(codec.iterparse)+interpret', lambda: [layout.interpret(t, m) for t in list(penman.PENMANCodec(model=m).iterparse(klines))]),
+        ('list(codec.iterdecode)', lambda: list(penman.PENMANCodec(model=m).iterdecode(lines))),
     ]
     if len(case['graphs']) * (case.get('repeat') or 1) == 1 and not case.get('bom'):
         containers.append(('decode', lambda: [penman.decode(text, model=m)]))
